@@ -44,6 +44,8 @@ func coqOp(op Op) string {
 	switch op.K {
 	case "announce":
 		return fmt.Sprintf("Announce %d", nn(op.A))
+	case "withdraw":
+		return fmt.Sprintf("Withdraw %d", nn(op.A))
 	case "deliver":
 		return fmt.Sprintf("Deliver %d%%nat %s", nn(op.I), b(op.Dup))
 	case "forget":
@@ -123,6 +125,8 @@ func shortOp(op Op) string {
 	switch op.K {
 	case "announce":
 		return fmt.Sprintf("A %d", nn(op.A))
+	case "withdraw":
+		return fmt.Sprintf("W %d", nn(op.A))
 	case "deliver":
 		if op.Dup {
 			return fmt.Sprintf("DD %d", nn(op.I))
